@@ -5,7 +5,6 @@ import (
 	"encoding/binary"
 	"errors"
 	"os"
-	"strings"
 	"time"
 	"unsafe"
 
@@ -241,12 +240,19 @@ func (c *CCache) GetEntries() []*Credential {
 	creds := make([]*Credential, 0)
 	for _, cred := range c.Credentials {
 		// Filter out configuration entries
-		if strings.HasPrefix(cred.Server.Realm, "X-CACHECONF") {
+		if cred.isConfig() {
 			continue
 		}
 		creds = append(creds, cred)
 	}
 	return creds
+}
+
+// isConfig tests if the credential is a cache configuration entry: its server principal is in the realm X-CACHECONF:
+// and has krb5_ccache_conf_data as the first name component.
+func (cred *Credential) isConfig() bool {
+	n := cred.Server.PrincipalName.NameString
+	return cred.Server.Realm == "X-CACHECONF:" && len(n) > 0 && n[0] == "krb5_ccache_conf_data"
 }
 
 func (h *headerField) valid() bool {
